@@ -866,7 +866,7 @@ func ruleCDC5(w *World, r *Report) {
 			fns = append(fns, fi) // decoders: functions of the log package that read from an io.Reader / *bufio.Reader
 		}
 		if rp == "pkg/engine" {
-			switch fi.Obj.Name() {
+			switch canonName(fi.Obj) {
 			case "parseHexVector", "parseVectorFromString", "resyncAOF", "replayAOF":
 				fns = append(fns, fi)
 			}
@@ -1906,6 +1906,30 @@ func ruleGRDscan(w *World, r *Report) {
 				if bo.Y == nVal {
 					boundOK = true
 				} else {
+					boundDesc = bo.Y.String()
+				}
+			}
+		}
+	}
+	if !boundOK {
+		// `for i := range n`: go/ssa rotates the loop — the entry test is `0 < n`, the test at the bottom compares the
+		// NEXT index (i+1) with n
+		for _, ref := range *phi.Referrers() {
+			inc, ok := ref.(*ssa.BinOp)
+			if !ok || inc.Op != token.ADD || inc.X != ssa.Value(phi) {
+				continue
+			}
+			if c, ok := constInt(inc.Y); !ok || c != 1 || inc.Referrers() == nil {
+				continue
+			}
+			for _, r2 := range *inc.Referrers() {
+				bo, ok := r2.(*ssa.BinOp)
+				if !ok || bo.X != ssa.Value(inc) || (bo.Op != token.LSS && bo.Op != token.NEQ) {
+					continue
+				}
+				if _, isIf := firstIf(bo); isIf && bo.Y == nVal {
+					boundOK = true
+				} else if isIf {
 					boundDesc = bo.Y.String()
 				}
 			}
